@@ -462,6 +462,8 @@ impl Property for C14 {
         let epoch_bits = prop_oneof![
             any::<u64>(),
             (0u64..4, 0u64..4, 0u64..4).prop_map(|(n, i, l)| (l << 40) | (i << 24) | n),
+            // well-formed epochs on a tiny number range: same epoch number with different (index, length) pairs is frequent
+            (0u64..3, 1u64..13, any::<u16>()).prop_map(|(n, l, i)| (l << 40) | (((i as u64 * l) >> 16) << 24) | n),
             (any::<u32>(), 0u64..70000, 0u64..70000).prop_map(|(n, i, l)| ((l & 0xffff) << 40) | ((i & 0xffff) << 24) | (n as u64 & 0xff_ffff)),
         ];
         let compact = prop_oneof![Just(0u32), Just(1u32), Just(0x0100_0001u32), Just(0x20ff_ffffu32), Just(0x2100_ffffu32), Just(0x1a08_0000u32), any::<u32>()];
